@@ -113,3 +113,17 @@ func (o onlyMessages) WriteMessage(b []byte) error          { return o.m.WriteMe
 func (o onlyMessages) Close() error                         { return o.m.Close() }
 
 func framed(e *ByteEnd) socket.Messages { return onlyMessages{socket.NewMessages(e, false)} }
+
+// withInput is the real framing with its SetBufferedInput method visible (Conn.SetBufferSize and
+// the server codec call it); SetBufferedOutput stays hidden (see onlyMessages).
+type withInput struct {
+	onlyMessages
+	in socket.BufferedInput
+}
+
+func (w withInput) SetBufferedInput(n int) { w.in.SetBufferedInput(n) }
+
+func framedIn(e *ByteEnd) socket.Messages {
+	m := socket.NewMessages(e, false)
+	return withInput{onlyMessages{m}, m.(socket.BufferedInput)}
+}
